@@ -775,6 +775,8 @@ type job struct {
 	tunnel  *tunnelCase
 	pipe    *pipeCase
 	dribble *dribbleCase
+
+	bodystall *bodyStallCase
 }
 
 func (e *env) do(ctx *core.Ctx, j job) {
@@ -799,6 +801,8 @@ func (e *env) do(ctx *core.Ctx, j job) {
 		e.runPipe(ctx, j.pipe)
 	case j.dribble != nil:
 		e.runDribble(ctx, j.dribble)
+	case j.bodystall != nil:
+		e.runBodyStall(ctx, j.bodystall)
 	}
 }
 
@@ -848,6 +852,8 @@ func genJobs(ctx *core.Ctx, r *core.Rand, conf Conf, tag string) []job {
 	}
 	// kept-alive connections whose client writes ahead (pipelined partial heads and bodies), dribbling peers
 	jobs = append(jobs, genAheadJobs(ctx, r, conf, id)...)
+	// stalls inside a request body with ReadTimeout set (F49)
+	jobs = append(jobs, genBodyStalls(ctx, r, conf, id, 4, 12)...)
 	core.Shuffle(r, jobs)
 	return jobs
 }
@@ -890,6 +896,7 @@ func Run(ctx *core.Ctx) {
 		"kept-alive connections after 1-3 served requests stalling after k bytes of the next head (1 .. all but the last CRLF) or inside the body behind a complete head, the bytes sent in the SAME segment as the previous request(s) " +
 		"(pipelined, waiting in the proxy's reader while a fast or slow origin answers), right after the previous response, or after an idle gap; peers DRIBBLING a PROXY header (v1, v2), ClientHello, request head or the " +
 		"ClientHello inside an intercepted tunnel byte by byte with pauses of a quarter to a half of the limit for longer than limit + slack (cut at phaseStart + limit), a probe next to them; " +
+		"stalls inside a request body with ReadTimeout set on every stacking (Content-Length and chunked, k framed body bytes incl. 0, also after served requests and behind a pipelined head): 504 at t0 + ReadTimeout, closed one idle timeout later (F49); " +
 		"every case is non-trivial; distinct = distinct (configuration, case parameters)")
 	ctx.Assume("wall clock sampled: close instants and probe latencies are measured on the monotonic clock of the harness process; lower side sharp (1 ms), upper side with slack")
 	for _, c := range core.LoadCorpus(ctx.Root, "C15") {
@@ -941,6 +948,11 @@ func Run(ctx *core.Ctx) {
 	slowOnly := func(conf Conf, tag string, r *core.Rand) {
 		id := func(kind string, i int) string { return fmt.Sprintf("%s-%s%d", tag, kind, i) }
 		jobs := genSlowJobs(ctx, r, conf, id, 1)
+		// (every stacking with ReadTimeout set) stalls inside a request body: F49
+		jobs = append(jobs, genBodyStalls(ctx, r, conf, id, 3, 8)...)
+		if conf.L.Read > 0 {
+			jobs = append(jobs, job{pipe: genPipe(r, conf, id("pb", 0), "segment", "body")})
+		}
 		core.Shuffle(r, jobs)
 		plans = append(plans, plan{conf, jobs})
 	}
@@ -986,6 +998,8 @@ func Run(ctx *core.Ctx) {
 				ctx.Sample(j.pipe)
 			case j.dribble != nil:
 				ctx.Sample(j.dribble)
+			case j.bodystall != nil:
+				ctx.Sample(j.bodystall)
 			}
 		}
 	}
@@ -1091,6 +1105,9 @@ func Replay(ctx *core.Ctx, raw json.RawMessage) {
 	case "dribble":
 		j.dribble = &dribbleCase{}
 		json.Unmarshal(raw, j.dribble)
+	case "bodystall":
+		j.bodystall = &bodyStallCase{}
+		json.Unmarshal(raw, j.bodystall)
 	case "warmup":
 		j.group = &groupCase{Kind: "group", Conf: k.Conf, ID: "warmup"}
 	default:
